@@ -35,27 +35,49 @@ def finish(sc, kinds):
         for i, k in enumerate(ks): sc['K%s%d' % (t, i)] = k
         for j, (op, ki) in enumerate(KINDS[kind]): sc['O%s%d' % (t, j)] = op; sc['Q%s%d' % (t, j)] = ks[ki]
     return sc
-def H(name, ta, tb, scen, tc=None, hashk=0, rounds=1, unroll=1, depth=1, timeout=600, desc='', tiers=None, thorough=None, **kw):
+ENABLE_SEGMENT = '_ZN3tbb6detail2d213hash_map_baseINS0_2d113tbb_allocatorISt4pairIKi5val_tEEENS3_13spin_rw_mutexEE14enable_segmentEmb'
+def H(name, ta, tb, scen, tc=None, hashk=0, rounds=1, unroll=1, depth=1, grow=False, timeout=900, desc='', tiers=None, thorough=None, **kw):
+    """grow=False: scenarios on a pre-grown table (256 buckets, <= 4 elements) that cannot reach the next growth threshold: enable_segment is
+    kept out of line (smaller thread bodies; if it were reached it would run as one atomic step). grow=True: enable_segment is inlined
+    into the thread bodies and interleaved at the granularity of its individual stores."""
     kinds = [ta, tb] + ([tc] if tc else [])
     thr = {}
     for k, sfx in zip(kinds, 'abc'): thr.setdefault('vp_thr_' + k, []).append(sfx)
     defs = {'TA': ta, 'TB': tb, 'NKA': ARITY[ta], 'NKB': ARITY[tb], 'NT': len(kinds), 'ROUNDS': rounds}
     if tc: defs.update({'TC': tc, 'NKC': ARITY[tc]})
-    h = dict(name=name, unit='chm', harness='h_chm.c', defines=defs, scenarios=[finish(x, kinds) for x in scen],
-             unit_override={'threads': thr, 'cxxflags': ['-DHASHK=%d' % hashk], 'unroll': unroll, 'unrec': {'rehash_bucket': depth}},
+    uo = {'threads': thr, 'cxxflags': ['-DHASHK=%d' % hashk], 'unroll': unroll, 'unrec': {'rehash_bucket': depth}}
+    if not grow: uo.update(noinline=['14enable_segmentEmb'], allow_atomic=[ENABLE_SEGMENT])
+    h = dict(name=name, unit='chm', harness='h_chm.c', defines=defs, scenarios=[finish(x, kinds) for x in scen], unit_override=uo,
              cbmc=['--unwind', '14', '--unwindset', UNWINDSET, '--object-bits', '11'], timeout=timeout, desc=desc,
-             bounds={'threads': len(kinds), 'free_rounds': rounds, 'forced_rounds': 2, 'loop_unroll': unroll, 'rehash_recursion_depth': depth, 'hash': ['identity', 'constant', 'low-bits-collide'][hashk]})
+             bounds={'threads': len(kinds), 'ops_per_thread': max(len(KINDS[k]) for k in kinds), 'free_rounds': rounds, 'forced_rounds': 2, 'loop_unroll': unroll,
+                     'rehash_recursion_depth': depth, 'hash': ['identity', 'constant', 'low-bits-collide'][hashk],
+                     'table_growth': 'inside the threads (first growth 2 -> 256 buckets)' if grow else 'before the threads (pre-grown to 256 buckets)'})
     if tiers: h['tiers'] = tiers
     if thorough: h['thorough_override'] = thorough
     h.update(kw)
     return h
 HARNESSES = [
-  dict(name='seg_contract', unit='seg', harness='h_seg.c', scenarios=[{'GROW2': 0}, {'GROW2': 1}], cbmc=['--unwind', '300', '--object-bits', '10'], timeout=600,
+  dict(name='seg_contract', unit='seg', harness='h_seg.c', scenarios=[{'GROW2': 0}], scenarios_thorough=[{'GROW2': 0}, {'GROW2': 1}], cbmc=['--unwind', '300', '--object-bits', '10'], timeout=600,
        desc='real get_bucket/enable_segment/init_buckets: for every bucket number <= mask (symbolic) the bucket is the right slot of the right block, constructed unlocked with the rehash flag (contracts used by the sparse bucket model of the thread harnesses)',
        bounds={'bucket number': 'all 0..255 (GROW2: 0..511)', 'segments': 'embedded + first block (+ segment 8)'}),
   H('find_era', 'find', 'era', [S([I(2), C(2)], [2], [2])], desc='find(const_accessor,k) || erase(k): accessor holder vs erase of the same element'),
-  H('ins_ins', 'ins', 'ins', [S([I(3)], [2], [2], KX0=3)], desc='insert(accessor,k) || insert(accessor,k), bucket of k still to be rehashed from its (empty) parent: exactly one true'),
   H('era_era', 'era', 'era', [S([I(2), C(2)], [2], [2])], desc='erase(k) || erase(k): exactly one true, node freed once'),
+  H('ins_ins', 'ins', 'ins', [S([I(3), C(2)], [2], [2], KX0=3), S([I(3)], [2], [2], KX0=3)],
+    desc='insert(accessor,k) || insert(accessor,k): exactly one true; bucket of k already rehashed (both start as bucket readers and upgrade) / still to be rehashed from its parent'),
+  H('split', 'insn', 'find', [S([I(4)], [2], [4])],
+    desc='insert(k) rehashing bucket 2 from parent bucket 0 || find(k2) rehashing bucket 4 from the same parent, k2=4 lives in the parent: two lazy splits of one chain'),
+  H('eacc_era', 'eacc', 'era', [S([I(2), C(2)], [2], [2])],
+    desc='find(accessor,k) + erase(accessor) || erase(k): exactly one of the two erases returns true, the write accessor stays valid until erase(accessor) releases it'),
+  H('findw_ins', 'findw', 'insr', [S([I(3), C(2)], [2], [2], KX0=3)],
+    desc='find(accessor,k) || insert(const_accessor,k): reader/writer element lock exclusion on a freshly inserted element'),
+  H('grow_race', 'insn', 'insn', [S([], [2], [3])], grow=True,
+    desc='insert(k) || insert(k2) on the EMPTY map: both cross the load-factor threshold, exactly one wins the segment CAS and grows 2 -> 256 buckets; enable_segment interleaved store by store'),
+  H('grow_maskrace', 'insn_cnt', 'insn', [S([], [2, 2], [2])], grow=True, timeout=1800,
+    desc='insert(k); count(k) [grows the table, then rehashes k out of bucket 0]  ||  insert(k) that read the old mask: check_mask_race must restart it; exactly one insert true, k linked once'),
+  H('chain_const', 'era', 'insn', [S([I(7), C(7)], [7], [5])], hashk=1,
+    desc='constant hash: erase(k) || insert(k2) in the same chain of the same bucket'),
+  H('chain_low', 'find', 'era', [S([I(6), C(6), I(5)], [6], [5], KX0=6)], hashk=2,
+    desc='hashes collide in the low 8 bits: find(k) walking the 2-node chain || erase(k2) unlinking the head of that chain'),
 ]
 OUTSIDE = []
 STUBS = []
